@@ -1,8 +1,9 @@
 (* C02 — JPEG Lossless (process 14, predictors 1-7, automatic selection) and the
    Selection-Value-1 codec: exact reconstruction. Property theorems only.
-   (To be moved to Props/C02.v by the integrator.) *)
+    *)
 From V Require Import Common.Base JpegLL.JllBits JpegLL.JllHuff JpegLL.JllModel JpegLL.JllT81
-  JpegLL.JllProofsBits JpegLL.JllProofsHuff JpegLL.JllProofs JpegLL.JllProofsRT.
+  JpegLL.JllProofsBits JpegLL.JllProofsHuff JpegLL.JllProofs JpegLL.JllProofsRT JpegLL.JllProofsT81
+  JpegLL.JllProofsCanon.
 
 (* All 65536 differences d in [-32768, 32767] go through EncodeLosslessDifference /
    ReceiveLosslessDifference exactly: the category is at most 16 (16 only for -32768, without
@@ -39,6 +40,20 @@ Theorem C02_huff_prefix_decode : forall bits vals s st B,
   exists st', huff_decode (ht_of bits vals) st = Some (s, st') /\ rep st' B.
 Proof. exact huff_prefix_decode. Qed.
 Print Assumptions C02_huff_prefix_decode.
+
+(* ... and that decoder (HuffmanTable.Build's mincode/maxcode/valptr + bit-serial Decode) is the
+   canonical decoder of the Annex C code table on EVERY input, code word or not. *)
+Theorem C02_mmv_decoder_is_canonical : forall bits vals st, table_facts bits vals ->
+  huff_decode (ht_of bits vals) st = canon_decode 16 (t81_entries bits vals) 0 0 st.
+Proof. exact mmv_decoder_is_canonical. Qed.
+Print Assumptions C02_mmv_decoder_is_canonical.
+
+(* HuffmanTable.Build (whose lookup-table fill indexes out of range on some invalid tables)
+   does not panic on a valid table *)
+Theorem C02_build_no_panic : forall bits vals, table_facts bits vals ->
+  build_table bits vals = Ok (ht_of bits vals).
+Proof. exact build_table_no_panic. Qed.
+Print Assumptions C02_build_no_panic.
 
 (* Whatever sequence of (value, bit count 1..16) the bit writer wrote (0xFF/0x00 stuffing,
    1-padding on Flush), the bit reader reads back, whatever follows the scan. *)
